@@ -87,7 +87,14 @@ def concrete_component(typ, value):
 
 def name_from_shape(eng, shape, tag='n'):
     """shape: list of (form, vlen)"""
-    return [component(eng, '%s%d' % (tag, i), vlen, form) for i, (form, vlen) in enumerate(shape)]
+    out = []
+    for i, (form, vlen) in enumerate(shape):
+        if form == 'L':
+            # a long concrete generic component: moves enclosing lengths across the 253 boundary
+            out.append(concrete_component(8, bytes((j * 3 + 1) & 0xFF for j in range(vlen))))
+        else:
+            out.append(component(eng, '%s%d' % (tag, i), vlen, form))
+    return out
 
 
 def names_equal(a, b):
